@@ -26,7 +26,7 @@ def register(PROPS):
                  '{0, 022, 077, 0377, 0776, 0777} on rows without mail: the job finds the requested umask and the files echsx creates '
                  'for it have mode 0666 & ~umask.  A job that is merely STOPPED (it sends itself SIGSTOP half way through its output and is continued half a second later) is not taken for finished: '
                  'status 5 of its real end is journalled and mailed, every byte written before and after the stop is routed.  The three mail flag lines in all six orders with an explicit X-ECHS-MAIL-RUN:0 '
-                 'give what the row prescribes (MAIL-OUT / MAIL-ERR imply the mail, as the README says; no mail when neither is set), the same in every order.  The journal entry is also there when the journal is busy at the moment the job ends: with the journal handed to every echsx the way echsd does (a descriptor of its own on the one file of the owner), one, two or three executors whose jobs exit with status 3 while another writer holds the lock on the journal, and a job that ends while an execution started later has just reported, each leave exactly one complete entry with X-EXIT-STATUS:3, nothing lost, nothing mangled.  A job that is already over when posix_spawn returns to echsx (the shim holds the call back until waitid(WNOWAIT) has seen the child\'s end, so the job is a zombie before echsx does anything else) is noticed all the same: echsx is back within 5 s with the true exit status or signal in the journal, the mail sent and the temporary file gone (a run that does not come back is reported as hang/early-exit/<exit kind>).  Layer (b) is exhaustive over its schedule alphabet for the rows that put echsx\'s loop '
+                 'give what the row prescribes (MAIL-OUT / MAIL-ERR imply the mail, as the README says; no mail when neither is set), the same in every order.  The journal entry is also there when the journal is busy at the moment the job ends: with the journal handed to every echsx the way echsd does (a descriptor of its own on the one file of the owner), one, two or three executors whose jobs exit with status 3 while another writer holds the lock on the journal, and a job that ends while an execution started later has just reported, each leave exactly one complete entry with X-EXIT-STATUS:3, nothing lost, nothing mangled.  A job that is already over when posix_spawn returns to echsx (the shim holds the call back until waitid(WNOWAIT) has seen the child\'s end, so the job is a zombie before echsx does anything else) is noticed all the same: echsx is back within 12 s with the true exit status or signal in the journal, the mail sent and the temporary file gone (a run that does not come back is reported as hang/early-exit/<exit kind>).  Layer (b) is exhaustive over its schedule alphabet for the rows that put echsx\'s loop '
                  'between job and destinations (R5 R9 R14 R15 R17 and N1).',
         'note': 'Layer (a) does not own the order in which the kernel shows pipe data and SIGCHLD to echsx; its oracle is insensitive to '
                 'it and layer (b) owns exactly that order, but delivers the exit through ev_feed_event on the ev_child echsx registered '
@@ -58,7 +58,7 @@ def register(PROPS):
             'a relative OFILE/EFILE is looked for in the requested working directory (LOCATION), failing that in the directory echsx was started in; what is judged is its content and the mail body',
             'umask menu: a file echsx creates on the job\'s behalf (OFILE/EFILE) is subject to the requested umask like a redirection made by the job\'s shell would be; rows with mail are left out of the menu because under umask 0777 an unprivileged echsx could not read its own mail file back',
             'stop-and-continue: the job stops itself with SIGSTOP and is continued by a helper it forked before (which holds none of the job\'s descriptors) half a second after /proc shows the job stopped; stops caused from outside or by terminal access are not exercised',
-            'early exit: the order "job ended, then posix_spawn returned" is placed by the LD_PRELOAD shim (E3_SPAWNWAIT: waitid(P_PID, pid, WEXITED|WNOWAIT) after the real posix_spawn, the child stays reapable); only jobs whose output fits a pipe (silent, alt50: 1600 bytes per stream) are used, since nobody reads while the call is held back; the complementary order (job alive when the loop starts) is what every other run of layer (a) is; the horizon of 5 s is the driver\'s, the property only says the run is journalled',
+            'early exit: the order "job ended, then posix_spawn returned" is placed by the LD_PRELOAD shim (E3_SPAWNWAIT: waitid(P_PID, pid, WEXITED|WNOWAIT) after the real posix_spawn, the child stays reapable); only jobs whose output fits a pipe (silent, alt50: 1600 bytes per stream) are used, since nobody reads while the call is held back; the complementary order (job alive when the loop starts) is what every other run of layer (a) is; the horizon of 12 s is the driver\'s, the property only says the run is journalled',
             'flag orders: an explicit X-ECHS-MAIL-RUN:0 next to a set MAIL-OUT / MAIL-ERR is read with the README ("this flag is implied when X-ECHS-MAIL-OUT or X-ECHS-MAIL-ERR is set"): the mail is sent',
             'stdout bytes are lower-case letters and newline, stderr bytes upper-case letters and tab, so every byte of a shared file or mail body is attributable; real jobs write whole 64-byte lines in writes of at most 4096 bytes',
             'layer (b): libev reports a child\'s exit no earlier than in the poll that follows the exit (exit fed in the check phase), a job blocked in write(2) does nothing else until the write is through, pipe capacity is the kernel default (64 KiB)',
